@@ -395,8 +395,8 @@ func ruleC16Table(r *Run) {
 						continue
 					}
 					a := c.Call.Args
-					name, ok1 := env.fold(a[1])
-					pth, ok2 := env.fold(a[2])
+					name, ok1 := env.fold(resolvePhi(a[1], p))
+					pth, ok2 := env.fold(resolvePhi(a[2], p))
 					if !ok1 || !ok2 {
 						r.Undecided(rule, "(*Router).Resource:AddNamed args", w.InstrPos(in), "route name or path is not a foldable constant expression")
 						return
